@@ -99,6 +99,10 @@ func pskTable(c *hcase, rep reporter) bool {
 						continue
 					}
 					want := a == "set" && b == "set"
+					if want && err != nil && len(psk) < 32 {
+						vlib.Class(sub, "unasserted:short-psk:rejected") // see evalCase
+						continue
+					}
 					if (err == nil) != want {
 						detail := fmt.Sprintf("%s.Setup%s(psk=%s, psk_id=%s) %s (err=%v); RFC 9180 VerifyPSKInputs says %v; suite %v info=%s",
 							side, map[int]string{1: "PSK", 3: "AuthPSK"}[mode], hx(psk), hx(id), verdict, err, rhpke.VerifyPSKInputs(mode, psk, id), c.S, hx(c.Info))
